@@ -20,6 +20,7 @@ ENGINE_OF = {
     "C01": "chan", "C02": "chan", "C03": "chan",
     "C11": "hal",
     "C13": "props",
+    "C14": "sto", "C15": "sto", "C16": "sto",
 }
 
 
